@@ -534,6 +534,30 @@ def r7_integer_width(ctx):
                f"`{stmt}` is computed in {res}: {txt[:120]}", key=f"C16-R7|{name}|{sym.canon(sym.parse_expr(stmt)) if True else stmt}")
 
 
+def r8_raw_chunk_untouched(ctx):
+    """BAM records are binary: any byte value can be the last byte of a record, so nothing may be cut from the chunk by looking at its content.  The chunk
+    reaches the record scanner and the extractor as it was read (np.asarray only)."""
+    ix = ctx.index
+    f = ix.func(BAM, "BamBuffer.from_raw_buffer")
+    ch = f.params[1]
+    writes = [n for n in body_walk(f.node) if isinstance(n, ast.Assign) and any(u(t) == ch for t in n.targets)]
+    for w in writes:
+        v = w.value
+        if isinstance(v, ast.Call) and u(v.func) in ("np.asarray", "np.asanyarray", "np.ascontiguousarray") and len(v.args) == 1 and u(v.args[0]) == ch:
+            ok = True
+        elif any(isinstance(x, ast.Subscript) and u(x.value) == ch for x in ast.walk(v)):
+            ok = False
+        else:
+            raise Unrecognised(f"{f.where}: the raw chunk is rewritten in an unknown form: {u(w)}")
+        ctx.ob(f.where, "the raw BAM chunk is not trimmed before the records are located (a record may end in any byte, e.g. 0x0A)", ok, u(w), key="C16-R8|chunk-untrimmed")
+    fs = [c for c in func_calls(f.node) if u(c.func).endswith("_find_starts")]
+    ok = len(fs) == 1 and fs[0].args and u(fs[0].args[0]) == ch
+    ctx.ob(f.where, "record starts are located in the chunk as read", ok, u(fs[0]) if fs else "", key="C16-R8|scan-arg")
+    ctx.count("assignments to the raw chunk", len(writes))
+
+
+from .c03 import r2_header_once as _header_once      # the BAM header is replayed once, before any record, also when the first table is empty
+
 RULES = [
     ("C16-R1", r1_layout),
     ("C16-R2", r2_code_tables),
@@ -542,4 +566,6 @@ RULES = [
     ("C16-R5", r5_sentinel_refid),
     ("C16-R6", r6_writer),
     ("C16-R7", r7_integer_width),
+    ("C16-R8", r8_raw_chunk_untouched),
+    ("C16-R9", _header_once),
 ]
